@@ -3,6 +3,7 @@ package tun
 import (
 	"fmt"
 	"sort"
+	"strings"
 
 	"pgregory.net/rapid"
 	"verif/harness/common"
@@ -92,6 +93,9 @@ func oracleC03B(p *Plan, res *Result) *common.Fail {
 			if ph == phTerminated && len(s.outs) == 0 && s.err != "" {
 				continue
 			}
+			if len(s.outs) == 1 && evs[s.outs[0]].Err != "" && s.ret == s.t0 && strings.Contains(s.err, "scripted socket error") {
+				continue // the socket refused the transmission: the Send reports that error
+			}
 			if len(s.outs) != 1 || s.ret != s.t0 || (s.err != "" && ph != phTerminated) {
 				return failTrace(evs, s.i1, "tcp-send", "TCP tunnel: Send(tag %d) emitted %d requests, returned %q after %s (expected one request, immediate nil)",
 					s.tag, len(s.outs), s.err, ms(s.ret-s.t0))
@@ -128,6 +132,26 @@ func oracleC03B(p *Plan, res *Result) *common.Fail {
 		if ph != phTerminated && first.Seq != sn {
 			return failTrace(evs, s.outs[0], "sequence-number", "Send(tag %d) used sequence number %d; %d acknowledged requests precede it in this epoch, so it must be %d",
 				s.tag, first.Seq, sn, sn)
+		}
+		// a transmission the socket refused ends the Send at once with that error; nothing was acknowledged
+		sockFailed := false
+		for k, oi := range s.outs {
+			if evs[oi].Err == "" {
+				continue
+			}
+			sockFailed = true
+			if k != len(s.outs)-1 || s.ret != evs[oi].T || !strings.Contains(s.err, "scripted socket error") {
+				return failTrace(evs, s.i1, "socket-error-handling", "transmission %d of Send(tag %d) failed with a socket error at %s; the Send returned %q at %s after %d transmissions (it must return that error at once)",
+					k, s.tag, ms(evs[oi].T), s.err, ms(s.ret), len(s.outs))
+			}
+		}
+		if sockFailed {
+			for _, a := range acks {
+				if a.ch == ch && !a.consumed && a.a >= s.t0 && a.a < s.ret {
+					a.consumed = true // taken and ignored while the Send was waiting
+				}
+			}
+			continue
 		}
 		if s.ret > s.t0+T {
 			return failTrace(evs, s.i1, "send-late", "Send(tag %d) returned %s after its first transmission, later than the response timeout %s", s.tag, ms(s.ret-s.t0), ms(T))
@@ -330,6 +354,11 @@ func genPlanC03B(rt *rapid.T) *Plan {
 		lane = append(lane, AppStep{AfterUs: gap*1000 + 100, Tag: i + 1})
 	}
 	p.Senders = [][]AppStep{lane}
+	if rapid.IntRange(0, 3).Draw(rt, "socket-errors") == 0 {
+		for i := 0; i < rapid.IntRange(1, 3).Draw(rt, "n-sock-fail"); i++ {
+			p.FailOut = append(p.FailOut, rapid.IntRange(0, 2*n+2).Draw(rt, "sock-fail-at"))
+		}
+	}
 	span := n * (c.ResendUs / 1000) * 2
 	if span > 4*c.TimeoutUs/1000 && n <= 8 {
 		span = 4 * c.TimeoutUs / 1000
